@@ -34,6 +34,10 @@ class Taint:
         self.callers: Dict[str, Set[str]] = {}
         self.attrs: Dict[Tuple[str, str], int] = {}  # (class, attribute) -> level of what is stored there
         self._cur: Optional[FunctionInfo] = None
+        # locals that hold callables taken out of a module-level table: (function, local name) -> pseudo-functions
+        self.fnvals: Dict[Tuple[str, str], List[FunctionInfo]] = {}
+        self.objvals: Dict[Tuple[str, str], Any] = {}  # (function, local name) -> class of the package object it holds
+        self._lambda_fis: Dict[int, FunctionInfo] = {}
         work = []
         for fq in seeds:
             fi = self._lookup(fq)
@@ -80,6 +84,16 @@ class Taint:
                 break
             stable = True
             for x in walk_no_nested(fi.node):
+                if isinstance(x, (ast.Assign, ast.NamedExpr)):
+                    tgts = x.targets if isinstance(x, ast.Assign) else [x.target]
+                    cs = self._table_callables(fi, x.value)
+                    for t in tgts:
+                        if cs and isinstance(t, ast.Name):
+                            self.fnvals[(fq, t.id)] = cs
+                if isinstance(x, ast.Assign) and isinstance(x.value, ast.Call) and len(x.targets) == 1 and isinstance(x.targets[0], ast.Name):
+                    ctor = self.repo.resolve_callee(fi, x.value)
+                    if ctor is not None and ctor.cls is not None and ctor.qualname.endswith(".__init__"):
+                        self.objvals[(fq, x.targets[0].id)] = ctor.cls  # a local object of a package class
                 if isinstance(x, ast.Assign):
                     lv = self.level(x.value)
                     for t in x.targets:
@@ -91,6 +105,13 @@ class Taint:
                 elif isinstance(x, ast.NamedExpr):
                     stable &= not self._bind(x.target, self.level(x.value), loc)
                 elif isinstance(x, (ast.For, ast.AsyncFor)):
+                    cs_f = self._table_callables(fi, x.iter)
+                    if cs_f and isinstance(x.target, ast.Name):
+                        self.fnvals[(fq, x.target.id)] = cs_f
+                    elif cs_f and isinstance(x.target, (ast.Tuple, ast.List)):
+                        for t_ in x.target.elts:  # rows of (predicate, action): every element may be any callable of the table
+                            if isinstance(t_, ast.Name):
+                                self.fnvals[(fq, t_.id)] = cs_f
                     lv = self.level(x.iter)
                     stable &= not self._bind(x.target, VAL if lv >= CONT else NONE, loc)
                 elif isinstance(x, ast.comprehension):
@@ -109,6 +130,88 @@ class Taint:
         ret_changed = ret != self.returns.get(fq, NONE)
         self.returns[fq] = ret
         return changed_callees, ret_changed
+
+    # -- callables kept in module-level tables (dispatch tables of lambdas / function names) -----------------------------
+    def _lambda_function(self, mod: Any, lam: ast.Lambda, label: str) -> FunctionInfo:
+        """a lambda as a function of its own: `def <label>(params): return <body>`"""
+        if id(lam) not in self._lambda_fis:
+            fd = ast.FunctionDef(name=label, args=lam.args, body=[ast.Return(value=lam.body)], decorator_list=[], returns=None, type_comment=None)
+            ast.copy_location(fd, lam)
+            ast.copy_location(fd.body[0], lam)
+            ast.fix_missing_locations(fd)
+            self._lambda_fis[id(lam)] = FunctionInfo(mod, label, fd)
+        return self._lambda_fis[id(lam)]
+
+    def _table_callables(self, fi: FunctionInfo, e: ast.AST) -> List[FunctionInfo]:
+        """the callables an expression may denote when it is `TABLE.get(k[, d])`, `TABLE[k]` or an element of iterating
+        TABLE, for a module-level constant TABLE that holds lambdas and/or names of package functions"""
+        tbl: Optional[ast.AST] = None
+        owner: Any = None  # the class whose body the table is written in (bare names there are its methods)
+        base: Optional[ast.AST] = None
+        if isinstance(e, ast.Call) and isinstance(e.func, ast.Attribute) and e.func.attr in ("get", "pop"):
+            base = e.func.value
+        elif isinstance(e, ast.Subscript):
+            base = e.value
+        elif isinstance(e, (ast.Name, ast.Attribute)):
+            base = e
+        label = "?"
+        if isinstance(base, ast.Name):
+            tbl = fi.module.constants.get(base.id)
+            label = base.id
+        elif isinstance(base, ast.Attribute) and isinstance(base.value, ast.Name) and base.value.id in ("self", "cls") and fi.cls is not None:
+            for c in self.repo.mro(fi.cls):
+                if base.attr in c.attrs:
+                    tbl, owner, label = c.attrs[base.attr], c, f"{c.name}.{base.attr}"
+                    break
+        if tbl is None:
+            return []
+        out: List[FunctionInfo] = []
+        n = 0
+        for x in ast.walk(tbl):
+            if isinstance(x, ast.Lambda):
+                n += 1
+                out.append(self._lambda_function(fi.module, x, f"<lambda#{n} of {label}>"))
+            elif isinstance(x, ast.Name) and owner is not None and x.id in owner.methods:
+                out.append(owner.methods[x.id])
+            elif isinstance(x, ast.Name) and x.id in fi.module.functions and fi.module.functions[x.id].cls is None:
+                out.append(fi.module.functions[x.id])
+        return out
+
+    def _callable_arg(self, fi: FunctionInfo, a: ast.AST) -> List[FunctionInfo]:
+        """an argument that is itself a callable of the package: a function's name, a lambda, or a local that holds table entries"""
+        if isinstance(a, ast.Lambda):
+            return [self._lambda_function(fi.module, a, f"<lambda in {fi.qualname}>")]
+        if isinstance(a, ast.Name):
+            if (fi.fq, a.id) in self.fnvals:
+                return list(self.fnvals[(fi.fq, a.id)])
+            if a.id in fi.module.functions and fi.module.functions[a.id].cls is None:
+                return [fi.module.functions[a.id]]
+            tgt = fi.module.imports.get(a.id, "")
+            m2, _, n2 = tgt.rpartition(".")
+            if m2 in self.repo.modules and n2 in self.repo.modules[m2].functions:
+                return [self.repo.modules[m2].functions[n2]]
+        return []
+
+    def _unique_method(self, name: str) -> Optional[FunctionInfo]:
+        """`obj.name(...)` on a receiver of unknown class: the one method of that name among the classes in scope"""
+        hits = [f for m in self.repo.modules.values() for f in m.functions.values() if f.cls is not None and f.qualname.split(".")[-1] == name and self.scope(f)]
+        return hits[0] if len(hits) == 1 else None
+
+    def _call_into(self, callee: FunctionInfo, arg_levels: List[int], fi: FunctionInfo, skip_first: bool = False) -> int:
+        self.fns.setdefault(callee.fq, callee)
+        self.callers.setdefault(callee.fq, set()).add(fi.fq)
+        ps = callee.positional_params()
+        if skip_first and ps and ps[0] in ("self", "cls"):
+            ps = ps[1:]
+        cp = self.params.setdefault(callee.fq, {})
+        for p_, lv in zip(ps, arg_levels):
+            if lv > cp.get(p_, NONE):
+                cp[p_] = lv
+                self._changed_callees.add(callee.fq)
+        if callee.fq not in self.locals:
+            self._changed_callees.add(callee.fq)
+            self.locals[callee.fq] = {}
+        return self.returns.get(callee.fq, NONE)
 
     def _bind(self, t: ast.AST, lv: int, loc: Dict[str, int]) -> bool:
         ch = False
@@ -169,6 +272,10 @@ class Taint:
             return self.level(e.value, fi)
         if isinstance(e, (ast.GeneratorExp, ast.ListComp, ast.SetComp)):
             return CONT if self.level(e.elt, fi) >= VAL else NONE
+        if isinstance(e, ast.DictComp):
+            return CONT if max(self.level(e.key, fi), self.level(e.value, fi)) >= VAL else NONE
+        if isinstance(e, ast.Dict):
+            return CONT if any(self.level(x, fi) >= VAL for x in list(e.values) + [k for k in e.keys if k is not None]) else NONE
         if isinstance(e, (ast.Tuple, ast.List, ast.Set)):
             return CONT if any(self.level(x, fi) >= VAL for x in e.elts) else NONE
         if isinstance(e, ast.Await):
@@ -187,6 +294,30 @@ class Taint:
                 return CONT if any(self.level(a, fi) >= CONT for a in e.args) else NONE
             if d == "next" and e.args:
                 return VAL if self.level(e.args[0], fi) >= CONT else NONE
+            if d in ("filter", "map", "itertools.filterfalse", "filterfalse", "itertools.takewhile", "takewhile", "itertools.dropwhile", "dropwhile") and len(e.args) == 2:
+                src = self.level(e.args[1], fi)
+                f0 = e.args[0]
+                if isinstance(f0, ast.Name) and f0.id in fi.module.functions and fi.module.functions[f0.id].cls is None and self.scope(fi.module.functions[f0.id]):
+                    r0 = self._call_into(fi.module.functions[f0.id], [VAL if src >= CONT else NONE], fi)
+                    if d == "map":
+                        return CONT if r0 >= VAL else NONE
+                elif isinstance(f0, ast.Lambda):
+                    r0 = self._call_into(self._lambda_function(fi.module, f0, f"<lambda in {fi.qualname}>"), [VAL if src >= CONT else NONE], fi)
+                    if d == "map":
+                        return CONT if r0 >= VAL else NONE
+                return CONT if src >= CONT else NONE  # the predicate's operand is classified where the predicate is defined
+            if d.split(".")[-1] in ("islice", "tee", "cycle", "chain") and d.split(".")[0] in ("itertools", "islice", "tee", "cycle", "chain") and e.args:
+                return CONT if any(self.level(a, fi) >= CONT for a in e.args) else NONE
+            if d in ("itertools.chain.from_iterable", "chain.from_iterable") and len(e.args) == 1:
+                a0 = e.args[0]
+                if isinstance(a0, (ast.GeneratorExp, ast.ListComp)):
+                    return CONT if self.level(a0.elt, fi) >= CONT else NONE
+                return CONT if self.level(a0, fi) >= CONT else NONE
+            if isinstance(e.func, ast.Name) and (fi.fq, e.func.id) in self.fnvals:
+                # a call through a local that holds an entry of a module-level dispatch table: every entry may be meant
+                levels = [self.level(a, fi) for a in e.args]
+                rs = [self._call_into(c_, levels, fi) for c_ in self.fnvals[(fi.fq, e.func.id)]]  # f(obj, ...) binds obj to `self` too
+                return max(rs) if rs else NONE
             if isinstance(e.func, ast.Attribute):
                 base = self.level(e.func.value, fi)
                 if base >= CONT and e.func.attr in ("get", "pop", "setdefault", "__getitem__"):
@@ -194,6 +325,11 @@ class Taint:
                 if base >= CONT and e.func.attr in CONTAINER_VIEW_METHODS | {"copy", "__iter__"}:
                     return CONT
             callee = self.repo.resolve_callee(fi, e)
+            if callee is None and isinstance(e.func, ast.Attribute) and isinstance(e.func.value, ast.Name) and e.func.value.id in fi.params \
+                    and fi.qualname.startswith("<lambda"):
+                callee = self._unique_method(e.func.attr)  # `tracer.handle_call(frame)` inside a table lambda
+            if callee is None and isinstance(e.func, ast.Attribute) and isinstance(e.func.value, ast.Name) and (fi.fq, e.func.value.id) in self.objvals:
+                callee = self.repo.method(self.objvals[(fi.fq, e.func.value.id)], e.func.attr)  # search.run() on a local object
             if callee is not None and self.scope(callee):
                 self.fns.setdefault(callee.fq, callee)
                 self.callers.setdefault(callee.fq, set()).add(fi.fq)
@@ -204,6 +340,13 @@ class Taint:
                     lv = self.level(a, fi)
                     if p.startswith("*"):
                         continue
+                    cs_a = self._callable_arg(fi, a)
+                    if cs_a:
+                        have = self.fnvals.setdefault((callee.fq, p), [])
+                        for c_ in cs_a:
+                            if c_ not in have:
+                                have.append(c_)
+                                self._changed_callees.add(callee.fq)
                     if lv > cp.get(p, NONE):
                         cp[p] = lv
                         self._changed_callees.add(callee.fq)
